@@ -747,7 +747,91 @@ def patItem (p : List Char) : Item := ⟨(patOps p).2, (patOps p).1⟩
 def excItem (e : List Char) : Item :=
   ⟨(excScan e [excNo] [.start]).2 ++ [.stop], (excScan e [excNo] [.start]).1 ++ [10]⟩
 
-theorem loadPattern_eq (h : Hyph) (p : List Char) : loadPattern h p = addItem h (patItem p) := rfl
+theorem scoreBytes_nil' : ScoreBytes [] := fun _ h => by cases h
+
+/-- A pattern's stream is not empty and never starts with an exception score. -/
+theorem patOps_head (p : List Char) :
+    ∃ x rest, (patOps p).1 = x :: rest ∧ x % 16 < 12 := by
+  have hb := scan_bound p [] (if p.head? = some '.' then [.start] else []) (.afterChar 0)
+    scoreBytes_nil' (by intro h; cases h)
+  have hfin : (patOps p).1
+      = finish (scan p [] (if p.head? = some '.' then [.start] else []) (.afterChar 0))
+          (if p.getLast? = some '.' then 11 else 10) := rfl
+  have hterm : (if p.getLast? = some '.' then 11 else 10) = 10 ∨
+      (if p.getLast? = some '.' then 11 else 10) = 11 := by split <;> simp
+  rw [hfin]
+  generalize (if p.getLast? = some '.' then 11 else 10) = term at hterm
+  generalize scan p [] (if p.head? = some '.' then [.start] else []) (.afterChar 0) = r at hb
+  obtain ⟨ops, path, st⟩ := r
+  simp only [finish]
+  cases ops with
+  | cons x rest =>
+    exact ⟨x, _, rfl, by have := hb.1 x (by simp); omega⟩
+  | nil =>
+    cases st with
+    | afterScore => exact ⟨term, [], rfl, by omega⟩
+    | afterChar n =>
+      simp only [List.nil_append, zerosThen]
+      cases hk : n / 16 with
+      | zero => exact ⟨term + n % 16 * 16, [], by simp, by omega⟩
+      | succ k =>
+        exact ⟨240, List.replicate k 240 ++ [term + n % 16 * 16],
+          by simp [List.replicate_succ], by decide⟩
+
+/-- Every value in the trie points into the data, at a pattern's stream. -/
+def PatOnly (h : Hyph) : Prop :=
+  ∀ π o, lookup h.trie π = some o → o < h.data.length ∧ isExcAt h.data o = false
+
+theorem patOnly_empty : PatOnly {} := by intro π o h; simp [lookup] at h
+
+theorem patOnly_holdsExc (h : Hyph) (hp : PatOnly h) (π : List Edge) : holdsExc h π = false := by
+  unfold holdsExc
+  cases hl : lookup h.trie π with
+  | none => rfl
+  | some o => exact (hp π o hl).2
+
+/-- While only patterns have been loaded the `holds_exception` test never fires. -/
+theorem loadPattern_eq (h : Hyph) (p : List Char) (hp : PatOnly h) :
+    loadPattern h p = addItem h (patItem p) := by
+  by_cases hk : (patOps p).2 = [] <;>
+    simp [loadPattern, addItem, patItem, patOnly_holdsExc h hp, hk]
+
+theorem patOnly_add (h : Hyph) (p : List Char) (hp : PatOnly h) :
+    PatOnly (addItem h (patItem p)) := by
+  obtain ⟨x, rest, hx, hx12⟩ := patOps_head p
+  have hops : (patItem p).ops = x :: rest := hx
+  intro π o hl
+  have hold : ∀ o, o < h.data.length → isExcAt h.data o = false →
+      o < (h.data ++ (patItem p).ops).length ∧ isExcAt (h.data ++ (patItem p).ops) o = false := by
+    intro o h1 h2
+    refine ⟨by simp; omega, ?_⟩
+    simp only [isExcAt, List.getD_eq_getElem?_getD] at h2 ⊢
+    rw [List.getElem?_append_left h1]; exact h2
+  simp only [addItem] at hl ⊢
+  by_cases hk : (patItem p).key = []
+  · simp only [hk, if_true] at hl
+    obtain ⟨h1, h2⟩ := hp π o hl
+    exact hold o h1 h2
+  · simp only [hk, if_false, lookup] at hl
+    by_cases hkp : (patItem p).key = π
+    · simp only [hkp, if_true, Option.some.injEq] at hl
+      subst hl
+      refine ⟨by simp [hops], ?_⟩
+      simp only [isExcAt, List.getD_eq_getElem?_getD]
+      rw [List.getElem?_append_right (Nat.le_refl _)]
+      simp [hops]; omega
+    · simp only [hkp, if_false] at hl
+      obtain ⟨h1, h2⟩ := hp π o hl
+      exact hold o h1 h2
+
+theorem loadPatterns_eq (ps : List (List Char)) (h : Hyph) (hp : PatOnly h) :
+    ps.foldl loadPattern h = ps.foldl (fun h p => addItem h (patItem p)) h := by
+  induction ps generalizing h with
+  | nil => rfl
+  | cons p ps ih =>
+    simp only [List.foldl_cons]
+    rw [loadPattern_eq h p hp]
+    exact ih _ (patOnly_add h p hp)
 
 theorem insertException_eq (h : Hyph) (e : List Char) :
     insertException h e = addItem h (excItem e) := by
@@ -756,13 +840,11 @@ theorem insertException_eq (h : Hyph) (e : List Char) :
 theorem build_eq (ps es : List (List Char)) :
     build ps es = (ps.map patItem ++ es.map excItem).foldl addItem {} := by
   unfold build insertExceptions loadPatterns
-  rw [List.foldl_append, List.foldl_map, List.foldl_map]
-  have h1 : (fun h p => loadPattern h p) = (fun h p => addItem h (patItem p)) := by
-    funext h p; exact loadPattern_eq h p
+  rw [List.foldl_append, List.foldl_map, List.foldl_map, loadPatterns_eq ps {} patOnly_empty]
   have h2 : (fun h e => insertException h e) = (fun h e => addItem h (excItem e)) := by
     funext h e; exact insertException_eq h e
-  show List.foldl (fun h e => insertException h e) (List.foldl (fun h p => loadPattern h p) {} ps) es = _
-  rw [h1, h2]
+  show List.foldl (fun h e => insertException h e) _ es = _
+  rw [h2]
 
 /-- The last item with key `π`. -/
 def newest : List Item → List Edge → Option Item
